@@ -190,20 +190,33 @@ func (ls *LocalSuperior) RemoveTask(id uuid.UUID) {
 }
 
 func (ls *LocalSuperior) submitCollectorMsg(ctx context.Context, resp *CollectorMsg) (err error) {
-	ls.taskCacheLock.Lock()
-	defer ls.taskCacheLock.Unlock()
-	v, ok := ls.taskCache.Get(resp.Msg.ID())
-	if !ok {
-		// TODO: maybe return error
-		return nil
+	// The task lock is held only for the lookup and a non-blocking send. Blocking on the
+	// task's channel while holding the lock would stall RemoveTask (which a waiter calls
+	// after it has stopped reading) and, with it, every other task of this superior.
+	for {
+		ls.taskCacheLock.Lock()
+		v, ok := ls.taskCache.Get(resp.Msg.ID())
+		if !ok {
+			ls.taskCacheLock.Unlock()
+			// TODO: maybe return error
+			return nil
+		}
+		ch := v.(chan *CollectorMsg)
+		select {
+		case ch <- resp:
+			ls.taskCacheLock.Unlock()
+			return nil
+		default:
+		}
+		ls.taskCacheLock.Unlock()
+
+		// channel is full: wait for the waiter to read or to remove the task
+		select {
+		case <-ctx.Done():
+			return ctx.Err()
+		case <-time.After(5 * time.Millisecond):
+		}
 	}
-	ch := v.(chan *CollectorMsg)
-	select {
-	case <-ctx.Done():
-		err = ctx.Err()
-	case ch <- resp:
-	}
-	return err
 }
 
 func (ls *LocalSuperior) onReportQualities(ctx context.Context, cid uuid.UUID, resp protocol.Message) error {
